@@ -74,6 +74,12 @@ CLAIMS = {
         "Trusted: uniqueness of hierarchical names and option propagation to unrolled array elements are not decided; an enum width re-implemented in a helper is UNDECIDED unless it uses a float log formula.",
         "DESIGN.md §4 C04",
     ),
+    "C14": (
+        "guard dominance in the DBC signal builder (CFG) with the threshold decided on the orderings 63/64/65 against the constant; exhaustive-raise of the type-length function; C size check matched against the specification row; exception-propagation (no swallowing handler) up to the plug-in's generate",
+        "Structural: every construction of a DBC signal/message is dominated by a raising test `layout total bits > 64`; the type-length function raises for every class without a static size, so no such field can become a leaf; the C plug-in registers the layout-size > 64 check and the command registers and verifies before generating; no handler between the raise sites and the plug-in's generate() swallows the rejection and generate() is eager, so nothing is written. Covers every CAN binding whatever field carries the excess.",
+        "Trusted: leaf extents come from the tiling cursor (C04); the DBC/C text for accepted messages is C05/C06's concern.",
+        "DESIGN.md §4 C14",
+    ),
 }
 
 NOT_BUILT = "check not built yet in this session (see DESIGN.md §7 build order); not claimed until it exists"
